@@ -519,6 +519,10 @@ class _Inliner:
             return helpers.get(("function", None, f.id))
         if isinstance(f, ast.Attribute) and isinstance(f.value, ast.Name) and cls is not None and f.value.id in ("self", cls):
             return helpers.get(("method", cls, f.attr))
+        if isinstance(f, ast.Attribute) and isinstance(f.value, ast.Name) and ("method", f.value.id, f.attr) in helpers and not any(
+                f.value.id in {a.arg for a in o.args.args} for o in fn_stack):
+            # Class.method(obj, ..) / Class.static_method(..): the receiver, if any, is an ordinary first argument
+            return (helpers[("method", f.value.id, f.attr)][0], False)
         return None
 
     def run(self):
@@ -1615,6 +1619,61 @@ def _split_parallel_assign(fn):
     return n
 
 
+# ------------------------------------------------------------------ N14 new methods called under an isinstance guard -> per-class calls
+
+def _devirtualise(modname, tree, inv):
+    """`if isinstance(x, (A, B)): r = x.m(a)` where m is a NEW method (not in the inventory) that A and B each define themselves, and no
+    class of the module derives from A or B:  `if isinstance(x, A): r = A.m(x, a) else: r = B.m(x, a)` - which the inliner then resolves."""
+    if inv is None:
+        return 0
+    classes = {c.name: c for c in tree.body if isinstance(c, ast.ClassDef)}
+    derived = {b.id for c in classes.values() for b in c.bases if isinstance(b, ast.Name)}
+
+    def new_method(cname, m):
+        c = classes.get(cname)
+        if c is None or cname in derived:
+            return None
+        for x in c.body:
+            if isinstance(x, ast.FunctionDef) and x.name == m and not x.decorator_list and f"{modname}:{cname}.{m}" not in inv:
+                return x
+        return None
+    n_done = 0
+    for fn in [x for x in ast.walk(tree) if isinstance(x, FUNC)]:
+        for guard in [x for x in _walk_local(fn) if isinstance(x, ast.If)]:
+            t = guard.test
+            if not (isinstance(t, ast.Call) and isinstance(t.func, ast.Name) and t.func.id == "isinstance" and len(t.args) == 2 and isinstance(t.args[0], ast.Name)):
+                continue
+            recv = t.args[0].id
+            kinds = t.args[1].elts if isinstance(t.args[1], ast.Tuple) else [t.args[1]]
+            if not kinds or not all(isinstance(k, ast.Name) and k.id in classes for k in kinds) or len({k.id for k in kinds}) != len(kinds):
+                continue
+            for i, st in enumerate(guard.body):
+                if any(isinstance(x, ast.Name) and x.id == recv and isinstance(x.ctx, (ast.Store, ast.Del)) for x in ast.walk(st)):
+                    break
+                call = st.value if isinstance(st, (ast.Assign, ast.Expr, ast.Return)) and isinstance(getattr(st, "value", None), ast.Call) else None
+                if call is None or not (isinstance(call.func, ast.Attribute) and isinstance(call.func.value, ast.Name) and call.func.value.id == recv):
+                    continue
+                m = call.func.attr
+                if not all(new_method(k.id, m) is not None for k in kinds):
+                    continue
+
+                def variant(kname):
+                    v = copy.deepcopy(st)
+                    c2 = v.value
+                    c2.func = ast.copy_location(ast.Attribute(value=ast.Name(id=kname, ctx=ast.Load()), attr=m, ctx=ast.Load()), call.func)
+                    c2.args = [ast.Name(id=recv, ctx=ast.Load())] + c2.args
+                    ast.fix_missing_locations(v)
+                    return v
+                chain = [variant(kinds[-1].id)]
+                for k in reversed(kinds[:-1]):
+                    test = ast.Call(func=ast.Name(id="isinstance", ctx=ast.Load()), args=[ast.Name(id=recv, ctx=ast.Load()), ast.Name(id=k.id, ctx=ast.Load())], keywords=[])
+                    chain = [ast.copy_location(ast.If(test=test, body=[variant(k.id)], orelse=chain), st)]
+                    ast.fix_missing_locations(chain[0])
+                guard.body[i] = chain[0]
+                n_done += 1
+    return n_done
+
+
 # ------------------------------------------------------------------ N7 nested ifs without else -> one conjunction
 
 def _merge_nested_ifs(fn):
@@ -1841,6 +1900,7 @@ def _rewrite_context_managers(modname, tree, inv):
 def _module_constants(tree):
     """names bound exactly once, at module level, to an int / str literal (also through `A, B = 0, 1`) and never rebound anywhere"""
     cands, stores = {}, {}
+    klasses = {c.name for c in tree.body if isinstance(c, ast.ClassDef)}
     for n in ast.walk(tree):
         if isinstance(n, ast.Name) and isinstance(n.ctx, (ast.Store, ast.Del)):
             stores[n.id] = stores.get(n.id, 0) + 1
@@ -1861,6 +1921,8 @@ def _module_constants(tree):
                 if isinstance(a, ast.Name) and isinstance(b, ast.Constant) and isinstance(b.value, (int, str)) and not isinstance(b.value, bool) and a.id.isupper() or \
                         (isinstance(a, ast.Name) and isinstance(b, ast.Constant) and isinstance(b.value, int) and not isinstance(b.value, bool) and a.id.startswith("_") and a.id[1:].isupper()):
                     cands[a.id] = b
+                elif isinstance(a, ast.Name) and a.id.lstrip("_").isupper() and isinstance(b, ast.Tuple) and b.elts and all(isinstance(e, ast.Name) and e.id in klasses for e in b.elts):
+                    cands[a.id] = b           # a fixed tuple of this module's classes (isinstance(x, _KINDS))
     return {k: v for k, v in cands.items() if stores.get(k, 0) == 1}
 
 
@@ -1919,6 +1981,7 @@ def normalize(modname, tree):
     stats["module_constants"] = _propagate_module_constants(tree)
     inv = inventory()
     stats["context_managers"] = _rewrite_context_managers(modname, tree, inv)
+    stats["devirtualised"] = _devirtualise(modname, tree, inv)
     if inv is not None:
         stats["inlined"] = _Inliner(modname, tree, inv).run()
     stats["ifexp_expanded"] = 0
